@@ -1,15 +1,14 @@
 use rooc::{solve_real_lp_problem_clarabel, Comparison, LinearModel, OptimizationType, VariableType};
 fn main() {
-    for obj in [vec![1.0, 0.0, 5.0], vec![1.0, 0.0, 0.0], vec![0.0, 0.0, 5.0], vec![1.0, 0.0, 1.0], vec![1.0, 0.0, -5.0]] {
-        let mut m = LinearModel::new();
-        m.add_variable("x0", VariableType::real());
-        m.add_variable("x1", VariableType::real());
-        m.add_variable("x2", VariableType::real());
-        m.add_constraint(vec![0.0, -5.0, 4.0], Comparison::Equal, 0.0);
-        m.set_objective(obj.clone(), OptimizationType::Min);
-        match solve_real_lp_problem_clarabel(&m) {
-            Ok(s) => println!("{obj:?}: Ok value {} {:?}", s.value(), s.assignment().iter().map(|a| a.value).collect::<Vec<_>>()),
-            Err(e) => println!("{obj:?}: Err {e}"),
-        }
+    let mut m = LinearModel::new();
+    m.add_variable("x0", VariableType::Real(0.0, f64::INFINITY));
+    m.add_variable("x1", VariableType::real());
+    m.add_variable("x2", VariableType::real());
+    m.add_variable("x3", VariableType::NonNegativeReal(0.0, 5.0));
+    m.add_constraint(vec![0.0, -1.0, 2.0, 1.0], Comparison::LessOrEqual, -4.0);
+    m.set_objective(vec![0.0, 0.0, -2.0, 0.0], OptimizationType::Min);
+    match solve_real_lp_problem_clarabel(&m) {
+        Ok(s) => println!("Ok value {} {:?}", s.value(), s.assignment().iter().map(|a| a.value).collect::<Vec<_>>()),
+        Err(e) => println!("Err {e}"),
     }
 }
